@@ -820,8 +820,23 @@ def check_C15(ctx, rep):
             e = x.exp_m1()
             return x - (e - s) / (e + 1.0)
         x = newton_chain(x0, step, k)
-        return IF(teq(s, 0.0), RETV(ZERO_TF), IF(tcmp("le", s, -1.0), NAN_LEAF, RETV(x)))
-    try_chain(fx, "TwoFloat::ln_1p", ln1p_ref, (2, 3, 1, 4), "R39", "ln_1p: ==0 -> 0; <=-1 -> NaN; x0=log1p(hi); x -= (e - self)/(e + 1), e = exp_m1(x)", 2)
+        # (next to -1 the low word is not negligible beside 1 + hi, which the starting value log1p(hi) assumes - (-1, 2^-60) gave
+        #  NaN, (-1 + 2^-53, -2^-55) a relative error of 2^-16: defect D11, fixed; for hi < -1/2 the sum 1 + x is formed without
+        #  cancellation error (Sterbenz) and ln takes over)
+        return IF(teq(s, 0.0), RETV(ZERO_TF), IF(tcmp("le", s, -1.0), NAN_LEAF, IF(fcmp("lt", s.hi, -0.5), RETV((1.0 + s).ln()), RETV(x))))
+    try_chain(fx, "TwoFloat::ln_1p", ln1p_ref, (2, 3, 1, 4), "R39", "ln_1p: ==0 -> 0; <=-1 -> NaN; hi < -1/2 -> ln(1 + x); x0=log1p(hi); x -= (e - self)/(e + 1), e = exp_m1(x)", 2)
+    # residue of D11 (recorded: K3): for hi = -1 the sum 1 + x is the low word, which may be subnormal, and ln of a subnormal
+    # argument is NaN (its iteration evaluates exp(-x0) with -x0 > 709.78): ln_1p((-1, lo)) is invalid for lo < 2^-1022
+    try:
+        t1p, b1p = fx.tree("TwoFloat::ln_1p")
+    except vg.Unsupported:
+        t1p = None
+    if t1p is not None:
+        hands_over = any(leaf[0] == "leaf" and any(tag(n) == "call" and n[1] == "TwoFloat::ln" for n in all_nodes(leaf[1])) for _, leaf in vg.leaves(t1p))
+        guarded = any(any(tag(n) == "const" and n[1] == "f64" and 0 < oracle.f64_of(n[2]) <= 2.0 ** -1000 for n in all_nodes(c)) for path, _ in vg.leaves(t1p) for c, _v in path)
+        rep.check(not hands_over or guarded, "R39r", "ln_1p: the argument handed to ln is in ln's range", "ln_1p-subnormal-argument",
+                  "ln_1p hands 1 + x to ln for hi < -1/2 with no lower bound: for x = (-1, lo) with a subnormal lo (1 + x < 2^-1022) ln returns NaN although "
+                  "ln(1 + x) = ln(lo) is an ordinary number (about -710 ... -744)", where=H.where(b1p), nontrivial=False)
     b = param(1)
     check_ref(fx, "R38", "TwoFloat::log", RETV(s.ln() / b.ln()), "ln(x) / ln(b)")
     l10 = oracle.dd_named("LN_10")
@@ -1120,6 +1135,14 @@ def check_tan_total_error(fx, tab, t_tan, b_tan):
     L = EB.log2f
     detail = {"kernel_rel": "2^%.2f" % L(eps_k), "with_reciprocal": "2^%.2f" % L(eps), "reduction_term": "2^%.2f" % L(red),
               "undecided": "arguments within 2*rho = 2^%.1f of an odd multiple of pi/2" % L(2 * rho)}
+    # the statement's second term is the first-order effect of the reduction error on tan; within 2*rho of an odd multiple of pi/2 the
+    # computed remainder is mostly reduction error and -1/T(r) amplifies it beyond that term.  Valid double-doubles do lie that
+    # close (their spacing at 2^20 is 2^-86, far below rho), so the bound fails there unless the reduction is accurate to well below
+    # that spacing - which a two-word pi/2 cannot be (recorded: K2b)
+    rep.check(2 * rho <= Fr(1, 2 ** 125), "R43e", "tan error next to the odd multiples of pi/2", "tan-near-pole",
+              "tan's bound is not established (and fails on the real code) for valid arguments within 2*rho = 2^%.1f of an odd multiple of pi/2: the remainder "
+              "r = x - q*P carries the error of the two-word reduction, and -1/T(r) turns it into an error larger than 2^-80 (1 + tan^2 v), e.g. "
+              "x = (0x1.a9adcc7f96cf0p+19, 0x1.d2a4f27e9ffffp-52): tan returns +2^104 for the true -2.48e26" % L(2 * rho), detail=detail)
     rep.check(eps <= Fr(1, 2 ** 50) and red <= Fr(1, 2 ** 80), "R43e", "tan error for 2^-400 <= |x| <= 2^20 away from the poles", "errbound:tan",
               "tan's bound 2^-50 |tan v| + 2^-80 (1 + tan^2 v) is not established: relative part 2^%.2f, reduction part 2^%.2f" % (L(eps), L(red)), detail=detail)
 
@@ -1405,7 +1428,9 @@ def check_C18(ctx, rep):
     check_ref(fx, "R49", "TwoFloat::cosh", RETV(ep / 2.0 + em / 2.0), "exp(x)/2 + exp(-x)/2")
     check_ref(fx, "R49", "TwoFloat::sinh", RETV(ep / 2.0 - em / 2.0), "exp(x)/2 - exp(-x)/2")
     check_ref(fx, "R49", "TwoFloat::tanh", RETV((ep - em) / (ep + em)), "(e+ - e-)/(e+ + e-)")
-    check_ref(fx, "R49", "TwoFloat::acosh", RETV((s + (s * s - 1.0).sqrt()).ln()), "ln(x + sqrt(x*x - 1))")
+    # (the domain guard is part of the form: for a large negative x with a non-zero low word the rounded x + sqrt(x*x - 1) can come
+    #  out as a tiny positive number, whose ln is an ordinary finite value - defect D10, fixed)
+    check_ref(fx, "R49", "TwoFloat::acosh", IF(tcmp("lt", s, 1.0), NAN_LEAF, RETV((s + (s * s - 1.0).sqrt()).ln())), "x < 1 -> NaN; ln(x + sqrt(x*x - 1))")
     x = s.abs()
     r = (x + (x * x + 1.0).sqrt()).ln()
     check_ref(fx, "R49", "TwoFloat::asinh", IF(s.is_sign_positive(), RETV(r), RETV(-r)), "sign(x) * ln(|x| + sqrt(|x|^2 + 1))")
